@@ -81,12 +81,14 @@ theorem wsmall_of_go (cd : Codec) (cfg : WCfg) (pre : List Entry) (w' : W) (n : 
   · rw [hI.len]; omega
 
 /-- **C01 for the bytes the regenerated writer produces, with explicit size limits only**: fewer than 2^26
-    entries, keys and values shorter than 2^32, `index_key_interval` a nonzero `usize`. -/
+    entries, keys and values shorter than 2^32, `index_key_interval` a nonzero `usize`, a compressor whose output on
+    blocks shorter than 2^63 bytes is shorter than 2^64 bytes (jointly satisfiable with `cd.Lawful`, e.g. by
+    `Codec.none`: `FrtSmoke.builder_hyps_sat`, SrcTie/FullRoundTrip.lean). -/
 theorem src_C01_writer_roundtrip_bounded (cd : Codec) (cfg : WCfg) (es : List Entry) (ct : CompressionType) (lvl : Nat)
     (hlaw : cd.Lawful) (hid : cd.id ≤ 5) (hlv : cfg.levels ≤ 255) (hiv : 1 ≤ cfg.interval) (hiv2 : cfg.interval < 2 ^ 64)
     (hasc : StrictAsc es) (hlens : ∀ e ∈ es, e.1.length < 2 ^ 32 ∧ e.2.length < 2 ^ 32)
     (hcount : es.length < 2 ^ 26)
-    (hcd : ∀ b, (cd.compress b).length < 2 ^ 64) (hct : ct.toNat = cd.id) :
+    (hcd : ∀ b : Bytes, b.length < 2 ^ 63 → (cd.compress b).length < 2 ^ 64) (hct : ct.toNat = cd.id) :
     ∃ file log, genWriterRun (codecFn cd) (genWriterNew cfg ct lvl) es = .ok file ∧ W.run cd cfg es = .ok (file, log) ∧
       (file.length < 2 ^ 64 → (∀ e ∈ log, e.raw.length < 2 ^ 32) →
         ∃ m, Meta.parse file = .ok m ∧
